@@ -1,7 +1,10 @@
 package main
 
 import (
+	"encoding/json"
 	"fmt"
+	"os"
+	"os/exec"
 	"strings"
 
 	jmespath "github.com/jmespath/go-jmespath"
@@ -22,6 +25,11 @@ func init() {
 // built-in (incl. calls on array/object literals stored in the AST), core and
 // projection sentences.
 func scenarioExprs(thorough bool) []string { return scenarioExprsW(thorough, 4) }
+
+// withConstants adds the constant-operand expressions (C13 only).
+var withConstants = false
+
+var constantOperands = []string{"`[]`", "`{}`", "`\"\"`", "''", "`0`", "`false`", "`null`", "`[0]`", "'a'", "`true`", "`1`"}
 
 // scenarioExprsW: wf is the weight bound of the generated function calls.
 func scenarioExprsW(thorough bool, wf int) []string {
@@ -45,6 +53,24 @@ func scenarioExprsW(thorough bool, wf int) []string {
 		"sort_by(a, &k) | sort_by(@, &t)", "sort_by(sort_by(a, &k), &t)", "a[*].sort(@)", "[sort_by(a, &k), a]", "sort_by(a, &k)[0].k",
 	} {
 		add(s)
+	}
+	// constants on either side of the logical operators and comparators (a Compile-time rewrite must agree with
+	// what the one-shot Search evaluates)
+	lits := []string{}
+	if withConstants {
+		lits = constantOperands
+	}
+	for _, lit := range lits {
+		for _, op := range []string{"||", "&&", "==", "!=", "<"} {
+			add(lit + " " + op + " a")
+			add("a " + op + " " + lit)
+			add(lit + " " + op + " `1`")
+		}
+		add("!" + lit)
+		add("[?" + lit + " || k]")
+		add("a[?" + lit + " && k].k")
+		add(lit + " | [@, `1`]")
+		add("not_null(" + lit + ", a)")
 	}
 	f := univ.FuncFragment(model.FunctionNames())
 	g := univ.NewGen(f)
@@ -89,20 +115,25 @@ func resKey(res interface{}, err error, pn *impl.Panic) string {
 	return "VALUE " + model.Canon(res)
 }
 
-func jsonDefectShallow(v interface{}) bool {
+func jsonDefectShallow(v interface{}) bool { return jsonDefectDepth(v, 0) }
+
+func jsonDefectDepth(v interface{}, depth int) bool {
+	if depth > 300 {
+		return true
+	}
 	switch x := v.(type) {
 	case nil, bool, float64, string:
 		return false
 	case []interface{}:
 		for _, e := range x {
-			if jsonDefectShallow(e) {
+			if jsonDefectDepth(e, depth+1) {
 				return true
 			}
 		}
 		return false
 	case map[string]interface{}:
 		for _, e := range x {
-			if jsonDefectShallow(e) {
+			if jsonDefectDepth(e, depth+1) {
 				return true
 			}
 		}
@@ -115,6 +146,7 @@ var parserAlphabet = []string{
 	"a", "a.b", "a.b.c.d.e.f.g.h.i.j.k.l.m.n.o.p", "a[0]", "a[1:2:3]", "*", "a.*", "[*]", "[]", "a[?b == `1`].c", "a || b && !c", "a | b | c",
 	"{a: b, c: d}", "[a, b]", "f(a, &b)", "`[1, 2, {\"a\": \"\\`\"}]`", "'raw'", `'it\'s'`, `'a\'b\'c'`, "''", `"quoted\n"`, "@", "`1`", "a == 'x'",
 	"", " ", "#", "a.", "a..b", ".a", "a.b.c.d.", "a[", "[0", "a[0", "{a:", "{a: b c}", "f(a b)", "f(", "'unclosed", "\"unclosed", "`unclosed", "`{bad json`", "\"bad\\xescape\"",
+	`'it\'s`, `'a\'`, `'x'`, `'abc' == 'abc'`, `'\'`, "\"a\\\"", "`\"x\\`", "`\\``", "foo[-]", "foo[:-]", "`seeded`", "\"bad\\qescape\"", "a[?b == 'c\\'d']", "'tail",
 	"a = b", "a.b.c.d.e.f.g ? h", "a[1:2:3:4]", "@(a)", "a b", "a ]", "(a", "a)", "[-]", "a[99999999999999999999]", "!", "&", "a.'x'", "a\u0080", "\xff", "a | ", "[?a",
 }
 
@@ -138,7 +170,61 @@ func safeParse(p *jmespath.Parser, x string) (key string) {
 	return parseKey(ast, err)
 }
 
+var globalDoc = `{"a":[{"k":2,"t":0},{"k":1,"t":1},{"k":3,"t":2}],"b":["b","a"]}`
+
+// globalOp performs one process-global operation and renders its outcome.
+func globalOp(mode string, xi int) string {
+	x := parserAlphabet[xi]
+	var doc interface{}
+	json.Unmarshal([]byte(globalDoc), &doc)
+	if mode == "search" {
+		res, err, pn := impl.SearchOnce(x, doc)
+		return resKey(res, err, pn)
+	}
+	jp, cerr, cpn := impl.Compile(x)
+	switch {
+	case cpn != nil:
+		return "Compile PANIC " + cpn.Site
+	case cerr != nil:
+		return fmt.Sprintf("Compile error %T", cerr)
+	}
+	r2, e2, p2 := impl.Search(jp, doc)
+	return "Compiled " + impl.Render(jp) + " / " + resKey(r2, e2, p2)
+}
+
+func init() {
+	freshModes["C13"] = func(i int, mode string) string { return globalOp(mode, i) }
+	preparers["C13"] = func(r *harness.Run) {
+		// one brand-new process per (operation, expression): the reference a first call gives
+		self, _ := os.Executable()
+		ref := map[string][]string{"search": make([]string, len(parserAlphabet)), "compile": make([]string, len(parserAlphabet))}
+		type job struct {
+			mode string
+			i    int
+		}
+		var jobs []job
+		for i := range parserAlphabet {
+			jobs = append(jobs, job{"search", i}, job{"compile", i})
+		}
+		harness.Parallel(len(jobs), func(_, k int) {
+			j := jobs[k]
+			out, err := exec.Command(self, "-prop", "C13", "-fresh", fmt.Sprint(j.i), "-mode", j.mode).Output()
+			val := "FRESH-PROCESS-FAILED " + fmt.Sprint(err)
+			for _, l := range strings.Split(string(out), "\n") {
+				if strings.HasPrefix(l, "FRESH-RESULT ") {
+					val = strings.TrimPrefix(l, "FRESH-RESULT ")
+				}
+			}
+			ref[j.mode][j.i] = val
+		})
+		js, _ := json.Marshal(ref)
+		os.WriteFile(harness.Root+"/bin/c13-fresh.json", js, 0o644)
+		r.Note("fresh_process_references", len(jobs))
+	}
+}
+
 func workC13(c *shardCtx) {
+	withConstants = true
 	globals := jmespath.VerifGlobals()
 	exprs := scenarioExprs(c.thorough())
 	// ---------- compiled expressions: closure over Search histories
@@ -146,6 +232,7 @@ func workC13(c *shardCtx) {
 		if !c.mine(ei) {
 			continue
 		}
+		c.journal("C13 expression " + text)
 		fresh := func() *jmespath.JMESPath {
 			jp, cerr, pn := impl.Compile(text)
 			if cerr != nil || pn != nil {
@@ -373,6 +460,60 @@ func workC13(c *shardCtx) {
 		}
 	}
 	prec(nil)
+	// ---------- process-global history: sequences of one-shot Search / Compile calls with different
+	// expressions (package-level caches, pools and buffers survive between them). The reference
+	// for every operation was taken by the parent in a brand-new process per operation.
+	var gref map[string][]string
+	if data, err := os.ReadFile(harness.Root + "/bin/c13-fresh.json"); err == nil {
+		json.Unmarshal(data, &gref)
+	}
+	if len(gref["search"]) == len(X) && len(gref["compile"]) == len(X) {
+		type op struct {
+			mode string
+			xi   int
+		}
+		var ops []op
+		for xi := range X {
+			ops = append(ops, op{"search", xi}, op{"compile", xi})
+		}
+		glen := 2
+		if c.thorough() {
+			glen = 3
+		}
+		bad := map[string]bool{}
+		var grec func(h []int)
+		grec = func(h []int) {
+			for oi, o := range ops {
+				if len(h) == 0 && !c.mine(oi) {
+					continue
+				}
+				hh := append(append([]int{}, h...), oi)
+				var got string
+				for _, k := range hh {
+					got = globalOp(ops[k].mode, ops[k].xi)
+				}
+				c.add("global_histories", 1)
+				want := gref[o.mode][o.xi]
+				sig := fmt.Sprintf("global-history-dependent:%s:%q", o.mode, X[o.xi])
+				if got != want && !bad[sig] {
+					bad[sig] = true
+					var before []string
+					for _, k := range hh[:len(hh)-1] {
+						before = append(before, ops[k].mode+" "+X[ops[k].xi])
+					}
+					c.report(harness.Violation{Kind: "wrong-value", Signature: sig,
+						Input:    map[string]interface{}{"operation": o.mode, "expression": X[o.xi], "calls_before_in_the_same_process": before, "earlier_calls_by_this_worker": "the worker process has made other calls before; the reference is the same call as the first call of a new process"},
+						Expected: want, Observed: got})
+				}
+				if len(hh) < glen {
+					grec(hh)
+				}
+			}
+		}
+		grec(nil)
+	} else {
+		c.res.Capped = "fresh-process references missing; process-global history pass skipped"
+	}
 	c.res.Notes["history_documents"] = len(historyDocs)
 	c.res.Notes["expression_universe"] = len(exprs)
 }
@@ -386,7 +527,7 @@ func histTexts(X []string, h []int) []string {
 }
 
 func finishC13(r *harness.Run, k map[string]int64, notes map[string]interface{}) harness.Coverage {
-	r.Rule = "for each expression of the scenario universe (every built-in incl. calls on array/object literals stored in the AST, core and projection sentences) breadth-first search over Search histories on one compiled object, 8 documents incl. failing ones; state = digest of (all private fields of the compiled expression, every package-level variable); searched to a fixpoint (all histories of any length) plus all histories up to length 2 (thorough 3) replayed call by call; every result equals the fresh-Compile result and the one-shot Search result (map order fixed by the instrumented build, so equality is exact). Parser: BFS over Parse histories on one Parser over an alphabet of 60 valid / lexer-failing / parser-failing expressions, state = VerifParserState, plus all histories up to length 2 (thorough 3); each Parse equals NewParser().Parse on AST render and error (type, message, offset). Non-trivial = transitions; distinct by history"
+	r.Rule = "for each expression of the scenario universe (every built-in incl. calls on array/object literals stored in the AST, core and projection sentences) breadth-first search over Search histories on one compiled object, 8 documents incl. failing ones; state = digest of (all private fields of the compiled expression, every package-level variable); searched to a fixpoint (all histories of any length) plus all histories up to length 2 (thorough 3) replayed call by call; every result equals the fresh-Compile result and the one-shot Search result (map order fixed by the instrumented build, so equality is exact). Parser: BFS over Parse histories on one Parser over an alphabet of 60 valid / lexer-failing / parser-failing expressions, state = VerifParserState, plus all histories up to length 2 (thorough 3); each Parse equals NewParser().Parse on AST render and error (type, message, offset). Process-global state: every sequence of two (thorough three) one-shot Search + Compile calls with different or equal expressions of the alphabet in one process must answer like the first call did. Non-trivial = transitions; distinct by history"
 	r.Assumptions = []string{"fixpoint: if every operation maps the single reachable state to itself and answers as a fresh object does, all longer histories are covered", "object-member order is harness-decided in this build"}
 	r.States = k["states"] + k["parser_states"]
 	r.Transitions = k["transitions"] + k["parser_transitions"]
@@ -398,6 +539,9 @@ func finishC13(r *harness.Run, k map[string]int64, notes map[string]interface{})
 	r.Note("search_histories_replayed", k["histories"])
 	r.Note("parser_states", k["parser_states"])
 	r.Note("parser_histories_replayed", k["parser_histories"])
+	r.Note("process_global_call_sequences", k["global_histories"])
+	r.Evaluations += k["global_histories"]
+	r.Traces += k["global_histories"]
 	for kk, v := range notes {
 		r.Note(kk, v)
 	}
